@@ -2,13 +2,13 @@
 C07 — Trained support vector machines are optimal solutions of their dual problem.
 (theorems on the solver/trainer model; see checks/c07.py for the tie)
 -/
-import SharkVerif.Lemmas.Smo
+import SharkVerif.Lemmas.WarmStart
+import SharkVerif.Props.C08
 namespace SharkVerif.C07
-open SharkVerif.Qp SharkVerif.Smo
+open SharkVerif.Qp SharkVerif.Smo SharkVerif.SvmTrainer
 
-/-- recomputed dual objective `lin·α − ½ αᵀKα` (under the current permutation) -/
-def dualObjective (s : RS) : Rat :=
-  rsum (fun k => s.lin k * s.alpha k) s.n - (1 / 2) * rsum (fun k => s.alpha k * Kalpha s k) s.n
+/-! The recomputed dual objective `lin·α − ½ αᵀKα` (under the current permutation) is `Smo.dualObjective`
+(`Lemmas/SmoObjective.lean`); `Smo.dual n Q lin α` is the same function of an arbitrary coefficient vector. -/
 
 /-- **objective_recomputed**: whenever the maintained gradient of every variable is `lin − K·α` (C08 `grad_inv`
 with all variables active, i.e. after `unshrink`), the value reported by `functionValue()` =
@@ -35,5 +35,945 @@ theorem stop_implies_kkt (strategy : Nat) (eps : Rat) (s : RS) (counter : Nat)
   unfold solveIter at h ⊢
   simp only [] at h ⊢
   split_ifs at h ⊢ with h1 h2 <;> simp_all
+
+
+/-! ## Optimality: a KKT(ε) point is within `ε·Σ(U−L)` of the maximum -/
+
+/-- **kkt_eps_near_optimal** (box problem, no bias): for a symmetric PSD quadratic form, if `α` is feasible and
+violates the KKT conditions of `max lin·α − ½αᵀQα, L ≤ α ≤ U` by at most `ε` (`g_k ≤ ε` unless `α_k = U_k`,
+`g_k ≥ −ε` unless `α_k = L_k`, with `g = lin − Qα`), then NO feasible `β` has an objective more than
+`ε·Σ_k (U_k − L_k)` above that of `α`. -/
+theorem kkt_eps_near_optimal_box {n : Nat} {Q : Nat → Nat → Rat} (hsym : ∀ a b, Q a b = Q b a) (hpsd : PSD n Q)
+    (lin L U α β : Nat → Rat) (ε : Rat) (hε : 0 ≤ ε)
+    (hα : ∀ k, k < n → L k ≤ α k ∧ α k ≤ U k) (hβ : ∀ k, k < n → L k ≤ β k ∧ β k ≤ U k)
+    (hup : ∀ k, k < n → α k < U k → lin k - rsum (fun c => Q k c * α c) n ≤ ε)
+    (hlo : ∀ k, k < n → L k < α k → -(lin k - rsum (fun c => Q k c * α c) n) ≤ ε) :
+    dual n Q lin β - dual n Q lin α ≤ ε * rsum (fun k => U k - L k) n :=
+  near_optimal_core hsym hpsd lin L U α β ε 0 hε hα hβ (zero_mul _)
+    (fun k hk h => by have := hup k hk h; linarith) (fun k hk h => by have := hlo k hk h; linarith)
+
+/-- **kkt_eps_near_optimal** (with equality constraint, i.e. trained with bias): KKT up to `ε` in the pairwise form
+the solver checks -- `g_i − g_j ≤ ε` for every `i` not at its upper and `j` not at its lower bound -- implies that no
+feasible `β` with the same coefficient sum is more than `ε·Σ(U−L)` better. -/
+theorem kkt_eps_near_optimal {n : Nat} {Q : Nat → Nat → Rat} (hsym : ∀ a b, Q a b = Q b a) (hpsd : PSD n Q)
+    (lin L U α β : Nat → Rat) (ε : Rat) (hε : 0 ≤ ε)
+    (hα : ∀ k, k < n → L k ≤ α k ∧ α k ≤ U k) (hβ : ∀ k, k < n → L k ≤ β k ∧ β k ≤ U k)
+    (hsum : rsum β n = rsum α n)
+    (hpair : ∀ i j, i < n → j < n → α i < U i → L j < α j →
+      (lin i - rsum (fun c => Q i c * α c) n) - (lin j - rsum (fun c => Q j c * α c) n) ≤ ε) :
+    dual n Q lin β - dual n Q lin α ≤ ε * rsum (fun k => U k - L k) n := by
+  obtain ⟨b, hb1, hb2⟩ := exists_bias n (fun k => lin k - rsum (fun c => Q k c * α c) n)
+    (fun i => α i < U i) (fun j => L j < α j) ε hε hpair
+  exact near_optimal_core hsym hpsd lin L U α β ε b hε hα hβ (by rw [hsum, sub_self, mul_zero]) hb1 hb2
+
+example : ∃ (Q : Nat → Nat → Rat), (∀ a b, Q a b = Q b a) ∧ PSD 2 Q :=
+  ⟨fun a b => if a = b then 1 else 0, fun a b => by by_cases h : a = b <;> simp [h, eq_comm],
+   fun v => by
+     simp only [bil, rsum, State.sumTo]
+     norm_num
+     nlinarith [mul_self_nonneg (v 0), mul_self_nonneg (v 1)]⟩
+
+/-- **configuration independence** (corollary, explicit constant): any two feasible points of the same problem that
+both satisfy the pairwise KKT conditions up to `ε` (what the solver guarantees when it reports `AccuracyReached`,
+whatever the shrinking / caching / precomputation / warm-start configuration, `stop_implies_kkt` +
+`stopped_pairwise_svm`) and have the same coefficient sum have dual objectives within `ε·Σ(U−L)` of each other. -/
+theorem config_independence {n : Nat} {Q : Nat → Nat → Rat} (hsym : ∀ a b, Q a b = Q b a) (hpsd : PSD n Q)
+    (lin L U α α' : Nat → Rat) (ε : Rat) (hε : 0 ≤ ε)
+    (hα : ∀ k, k < n → L k ≤ α k ∧ α k ≤ U k) (hα' : ∀ k, k < n → L k ≤ α' k ∧ α' k ≤ U k)
+    (hsum : rsum α' n = rsum α n)
+    (hpair : ∀ i j, i < n → j < n → α i < U i → L j < α j →
+      (lin i - rsum (fun c => Q i c * α c) n) - (lin j - rsum (fun c => Q j c * α c) n) ≤ ε)
+    (hpair' : ∀ i j, i < n → j < n → α' i < U i → L j < α' j →
+      (lin i - rsum (fun c => Q i c * α' c) n) - (lin j - rsum (fun c => Q j c * α' c) n) ≤ ε) :
+    |dual n Q lin α' - dual n Q lin α| ≤ ε * rsum (fun k => U k - L k) n := by
+  have h1 := kkt_eps_near_optimal hsym hpsd lin L U α α' ε hε hα hα' hsum hpair
+  have h2 := kkt_eps_near_optimal hsym hpsd lin L U α' α ε hε hα' hα hsum.symm hpair'
+  rw [abs_le]; constructor <;> linarith
+
+/-- the same for the problem without bias -/
+theorem config_independence_box {n : Nat} {Q : Nat → Nat → Rat} (hsym : ∀ a b, Q a b = Q b a) (hpsd : PSD n Q)
+    (lin L U α α' : Nat → Rat) (ε : Rat) (hε : 0 ≤ ε)
+    (hα : ∀ k, k < n → L k ≤ α k ∧ α k ≤ U k) (hα' : ∀ k, k < n → L k ≤ α' k ∧ α' k ≤ U k)
+    (hup : ∀ k, k < n → α k < U k → lin k - rsum (fun c => Q k c * α c) n ≤ ε)
+    (hlo : ∀ k, k < n → L k < α k → -(lin k - rsum (fun c => Q k c * α c) n) ≤ ε)
+    (hup' : ∀ k, k < n → α' k < U k → lin k - rsum (fun c => Q k c * α' c) n ≤ ε)
+    (hlo' : ∀ k, k < n → L k < α' k → -(lin k - rsum (fun c => Q k c * α' c) n) ≤ ε) :
+    |dual n Q lin α' - dual n Q lin α| ≤ ε * rsum (fun k => U k - L k) n := by
+  have h1 := kkt_eps_near_optimal_box hsym hpsd lin L U α α' ε hε hα hα' hup hlo
+  have h2 := kkt_eps_near_optimal_box hsym hpsd lin L U α' α ε hε hα' hα hup' hlo'
+  rw [abs_le]; constructor <;> linarith
+
+/-! ## From the solver's stopping test to the KKT conditions on the coefficients -/
+
+/-- when all variables are active (after `unshrink`), `checkKKT ≤ ε` of the equality-constrained problem is the
+pairwise KKT condition on the coefficients themselves (the status bits are the coefficients at their bounds) -/
+theorem stopped_pairwise_svm {s : RS} (h : Inv s) (he : s.eqc = true) (hact : s.active = s.n) {ε : Rat}
+    (hk : s.checkKKT ≤ ε) :
+    ∀ i j, i < s.n → j < s.n → s.alpha i < s.U i → s.L j < s.alpha j → s.g i - s.g j ≤ ε := by
+  intro i j hi hj hui hlj
+  rw [checkKKT_svm s he, hact] at hk
+  obtain ⟨h1, h2⟩ := maxKKT_spec s s.n
+  have hup : s.up i = false := by
+    cases hx : s.up i
+    · rfl
+    · have := (h.fup i hi).1 hx; linarith
+  have hlo : s.lo j = false := by
+    cases hx : s.lo j
+    · rfl
+    · have := (h.flo j hj).1 hx; linarith
+  have := h1 i hi hup
+  have := h2 j hj hlo
+  linarith
+
+/-- the same for the box problem: every single KKT violation is bounded by `checkKKT` -/
+theorem stopped_kkt_box {s : RS} (h : Inv s) (he : s.eqc = false) {ε : Rat} (hk : s.checkKKT ≤ ε) :
+    ∀ i, i < s.n → (s.alpha i < s.U i → s.g i ≤ ε) ∧ (s.L i < s.alpha i → - s.g i ≤ ε) := by
+  intro i hi
+  have hb := h.box i hi
+  constructor
+  · intro hui
+    have hup : s.up i = false := by
+      cases hx : s.up i
+      · rfl
+      · have := (h.fup i hi).1 hx; linarith
+    have := (checkKKT_box_spec s he i hi (fun hc => by rw [hup] at hc; exact absurd hc.2 (by simp))).1 hup
+    linarith
+  · intro hli
+    have hlo : s.lo i = false := by
+      cases hx : s.lo i
+      · rfl
+      · have := (h.flo i hi).1 hx; linarith
+    have := (checkKKT_box_spec s he i hi (fun hc => by rw [hlo] at hc; exact absurd hc.1 (by simp))).2 hlo
+    linarith
+
+/-- **the reported solution is near-optimal** (equality-constrained problem): if the invariant holds (C08
+`reachable_inv`), all variables are active and `checkKKT < ε` (which is what `stop_implies_kkt` gives for the state
+reported with `AccuracyReached`), then for PSD `K` no feasible `β` with the same coefficient sum has a dual objective
+more than `ε·Σ(U−L)` above the reported one. -/
+theorem stopped_near_optimal_svm {s : RS} (h : Inv s) (he : s.eqc = true) (hact : s.active = s.n)
+    (hpsd : PSD s.n (Qmat s)) {ε : Rat} (hε : 0 ≤ ε) (hk : s.checkKKT < ε)
+    (β : Nat → Rat) (hβ : ∀ k, k < s.n → s.L k ≤ β k ∧ β k ≤ s.U k) (hsum : rsum β s.n = alphaSum s) :
+    dual s.n (Qmat s) s.lin β - dualObjective s ≤ ε * rsum (fun k => s.U k - s.L k) s.n := by
+  rw [dualObjective_eq]
+  apply kkt_eps_near_optimal (Qmat_symm h.sym) hpsd s.lin s.L s.U s.alpha β ε hε h.box hβ hsum
+  intro i j hi hj hui hlj
+  have := stopped_pairwise_svm h he hact (le_of_lt hk) i j hi hj hui hlj
+  have gi : s.g i = s.lin i - rsum (fun b => Qmat s i b * s.alpha b) s.n := h.grad i (by rw [hact]; exact hi)
+  have gj : s.g j = s.lin j - rsum (fun b => Qmat s j b * s.alpha b) s.n := h.grad j (by rw [hact]; exact hj)
+  rw [← gi, ← gj]; exact this
+
+/-- the same for the problem without bias -/
+theorem stopped_near_optimal_box {s : RS} (h : Inv s) (he : s.eqc = false) (hact : s.active = s.n)
+    (hpsd : PSD s.n (Qmat s)) {ε : Rat} (hε : 0 ≤ ε) (hk : s.checkKKT < ε)
+    (β : Nat → Rat) (hβ : ∀ k, k < s.n → s.L k ≤ β k ∧ β k ≤ s.U k) :
+    dual s.n (Qmat s) s.lin β - dualObjective s ≤ ε * rsum (fun k => s.U k - s.L k) s.n := by
+  rw [dualObjective_eq]
+  have hg : ∀ k, k < s.n → s.g k = s.lin k - rsum (fun b => Qmat s k b * s.alpha b) s.n :=
+    fun k hk' => h.grad k (by rw [hact]; exact hk')
+  apply kkt_eps_near_optimal_box (Qmat_symm h.sym) hpsd s.lin s.L s.U s.alpha β ε hε h.box hβ
+  · intro k hk' hu; rw [← hg k hk']; exact (stopped_kkt_box h he (le_of_lt hk) k hk').1 hu
+  · intro k hk' hl; rw [← hg k hk']; exact (stopped_kkt_box h he (le_of_lt hk) k hk').2 hl
+
+/-! ## `getUnpermutedAlpha` -/
+
+/-- **unpermute_correct**: `getUnpermutedAlpha` undoes the accumulated coordinate flips: entry `perm i` of the result
+is the coefficient of the (permuted) variable `i`, for every injective `perm` (C08 `reachable_inv` keeps it
+injective); positions that are not hit keep the initial value. -/
+theorem unpermute_correct (s : RS) (z : Rat)
+    (hinj : ∀ a b, a < s.n → b < s.n → s.perm a = s.perm b → a = b) :
+    (∀ i, i < s.n → unpermutedAlpha s z (s.perm i) = s.alpha i) ∧
+    (∀ x, (∀ i, i < s.n → s.perm i ≠ x) → unpermutedAlpha s z x = z) := by
+  have key : ∀ m, m ≤ s.n →
+      let f := (List.range m).foldl (fun (f : Nat → Rat) i => upd f (s.perm i) (s.alpha i)) (fun _ => z)
+      (∀ i, i < m → f (s.perm i) = s.alpha i) ∧ (∀ x, (∀ i, i < m → s.perm i ≠ x) → f x = z) := by
+    intro m
+    induction m with
+    | zero => intro _ f; exact ⟨fun i hi => by omega, fun x _ => rfl⟩
+    | succ m ih =>
+      intro hm f
+      have hf : f = upd ((List.range m).foldl (fun (f : Nat → Rat) i => upd f (s.perm i) (s.alpha i)) (fun _ => z))
+          (s.perm m) (s.alpha m) := by
+        show (List.range (m + 1)).foldl _ _ = _
+        rw [List.range_succ, List.foldl_append]; rfl
+      obtain ⟨ih1, ih2⟩ := ih (by omega)
+      rw [hf]
+      constructor
+      · intro i hi
+        by_cases him : i = m
+        · subst him; exact upd_same _ _ _
+        · have hne : s.perm i ≠ s.perm m := fun e => him (hinj i m (by omega) (by omega) e)
+          rw [upd_ne _ _ hne]; exact ih1 i (by omega)
+      · intro x hx
+        have hne : x ≠ s.perm m := fun e => hx m (Nat.lt_succ_self m) e.symm
+        rw [upd_ne _ _ hne]; exact ih2 x (fun i hi => hx i (by omega))
+  exact key s.n (Nat.le_refl _)
+
+example : ∃ s : RS, (∀ a b, a < s.n → b < s.n → s.perm a = s.perm b → a = b) ∧ 0 < s.n :=
+  ⟨State.init 1 (fun _ _ => 1) true false (fun _ => 1) (fun _ => 0) (fun _ => 1), fun _ _ _ _ e => e, by decide⟩
+
+
+/-! ## `computeBias` -/
+
+theorem lit1e100 : (1.0e100 : Rat) = 10 ^ 100 := by norm_num
+
+theorem mean_le {S c x ε : Rat} (hc : 0 < c) (h : x * c - S ≤ ε * c) : x - S / c ≤ ε := by
+  have hS : S / c * c = S := div_mul_cancel₀ S (ne_of_gt hc)
+  by_contra hcon
+  have := mul_lt_mul_of_pos_right (not_le.mp hcon) hc
+  nlinarith
+
+theorem mean_ge {S c x ε : Rat} (hc : 0 < c) (h : S - x * c ≤ ε * c) : S / c - x ≤ ε := by
+  have hS : S / c * c = S := div_mul_cancel₀ S (ne_of_gt hc)
+  by_contra hcon
+  have := mul_lt_mul_of_pos_right (not_le.mp hcon) hc
+  nlinarith
+
+/-- FULL STATEMENT (not provable for the code as it is): whenever the reported state satisfies the pairwise KKT
+conditions up to `ε`, the bias `b` returned by `computeBias` lies in the interval the optimality conditions allow:
+`g_i − b ≤ ε` for every `i` not at its upper bound and `b − g_j ≤ ε` for every `j` not at its lower bound.
+PROVED PART: gradients inside the sentinel range `[−1e100, 1e100]` of the C++ (`lowerBound = -1e100`,
+`upperBound = 1e100`); the hypothesis is used only when there is no free variable; `bias_sentinel_witness` lies
+outside.  Boxes may be degenerate (`L_k = U_k`, e.g. an example weight of 0): since the fix of F-C07-5 such variables
+are skipped (`bias_degenerate_box_instance_repaired`).  `s.g` is the maintained gradient, which is `lin − K·α` for all
+variables after `unshrink` (C08 `grad_all_after_unshrink`). -/
+theorem bias_in_kkt_interval_partial {s : RS} (h : Inv s) {ε : Rat} (hε : 0 ≤ ε)
+    (hpair : ∀ i j, i < s.n → j < s.n → s.alpha i < s.U i → s.L j < s.alpha j → s.g i - s.g j ≤ ε)
+    (hrange : ∀ k, k < s.n → -(10 : Rat) ^ 100 ≤ s.g k ∧ s.g k ≤ 10 ^ 100) :
+    (∀ i, i < s.n → s.alpha i < s.U i → s.g i - computeBias s (fun k => (k : Rat)) ≤ ε) ∧
+    (∀ j, j < s.n → s.L j < s.alpha j → computeBias s (fun k => (k : Rat)) - s.g j ≤ ε) := by
+  by_cases hn : s.n = 0
+  · exact ⟨fun i hi => by omega, fun j hj => by omega⟩
+  rw [computeBias_eq, if_neg hn]
+  obtain ⟨h1, h2, h3, h4, h5, h6⟩ := biasInv_all s s.n
+  -- the bound tests of `computeBias` are tests against the raw box under the invariant
+  have hBL : ∀ k, k < s.n → (s.alpha k = s.boxMin k ↔ s.alpha k = s.L k) := fun k hk => by rw [boxMin_eq h hk]
+  have hBU : ∀ k, k < s.n → (s.alpha k = s.boxMax k ↔ s.alpha k = s.U k) := fun k hk => by rw [boxMax_eq h hk]
+  have hDeg : ∀ k, k < s.n → (s.boxMin k = s.boxMax k ↔ s.L k = s.U k) := fun k hk => by
+    rw [boxMin_eq h hk, boxMax_eq h hk]
+  have hfree : ∀ k, k < s.n → ¬ atB s k → s.L k < s.alpha k ∧ s.alpha k < s.U k := by
+    intro k hk hB
+    have hb := h.box k hk
+    have n1 : s.alpha k ≠ s.L k := fun e => hB (Or.inr (Or.inl ((hBL k hk).2 e)))
+    have n2 : s.alpha k ≠ s.U k := fun e => hB (Or.inr (Or.inr ((hBU k hk).2 e)))
+    exact ⟨lt_of_le_of_ne hb.1 (Ne.symm n1), lt_of_le_of_ne hb.2 n2⟩
+  generalize biasAcc s s.n = acc at *
+  by_cases hc : acc.2.2.2 > 0
+  · rw [if_pos hc]
+    have hcq : (0 : Rat) < (acc.2.2.2 : Rat) := by exact_mod_cast hc
+    constructor
+    · intro i hi hui
+      have hle : rsum (fun k => if atB s k then 0 else s.g i - s.g k) s.n
+          ≤ rsum (fun k => if atB s k then 0 else ε) s.n := by
+        apply rsum_le; intro k hk
+        by_cases hB : atB s k
+        · simp only [hB, if_true]; exact le_refl _
+        · simp only [hB, if_false]; exact hpair i k hi hk hui (hfree k hk hB).1
+      have e1 : rsum (fun k => if atB s k then 0 else s.g i - s.g k) s.n
+          = s.g i * (acc.2.2.2 : Rat) - acc.2.2.1 := by
+        rw [h1, h2, ← rsum_mul_left, ← rsum_sub]; apply rsum_congr; intro k _; split <;> ring
+      have e2 : rsum (fun k => if atB s k then 0 else ε) s.n = ε * (acc.2.2.2 : Rat) := by
+        rw [h2, ← rsum_mul_left]; apply rsum_congr; intro k _; split <;> ring
+      rw [e1, e2] at hle
+      exact mean_le hcq hle
+    · intro j hj hlj
+      have hle : rsum (fun k => if atB s k then 0 else s.g k - s.g j) s.n
+          ≤ rsum (fun k => if atB s k then 0 else ε) s.n := by
+        apply rsum_le; intro k hk
+        by_cases hB : atB s k
+        · simp only [hB, if_true]; exact le_refl _
+        · simp only [hB, if_false]; exact hpair k j hk hj (hfree k hk hB).2 hlj
+      have e1 : rsum (fun k => if atB s k then 0 else s.g k - s.g j) s.n
+          = acc.2.2.1 - s.g j * (acc.2.2.2 : Rat) := by
+        rw [h1, h2, ← rsum_mul_left, ← rsum_sub]; apply rsum_congr; intro k _; split <;> ring
+      have e2 : rsum (fun k => if atB s k then 0 else ε) s.n = ε * (acc.2.2.2 : Rat) := by
+        rw [h2, ← rsum_mul_left]; apply rsum_congr; intro k _; split <;> ring
+      rw [e1, e2] at hle
+      exact mean_ge hcq hle
+  · rw [if_neg hc, lit05]
+    have hz : acc.2.2.2 = 0 := by omega
+    have hall : ∀ k, k < s.n → atB s k := count_zero_all_bound s s.n (by rw [← h2, hz]; norm_num)
+    rw [lit1e100] at h5 h6
+    constructor
+    · intro i hi hui
+      have hbi := h.box i hi
+      have hdi : s.boxMin i ≠ s.boxMax i := fun e => by have := (hDeg i hi).1 e; linarith
+      have hiL : s.alpha i = s.boxMin i := by
+        rcases hall i hi with e | e | e
+        · exact absurd e hdi
+        · exact e
+        · have := (hBU i hi).1 e; linarith
+      have hlb := h3 i hi hdi hiL
+      have hub : s.g i - acc.2.1 ≤ ε := by
+        rcases h6 with e | ⟨k, hk, _, hk1, hk2, hk3⟩
+        · rw [e]; have := (hrange i hi).2; linarith
+        · rw [← hk3]
+          have hkL : s.L k < s.alpha k :=
+            lt_of_le_of_ne (h.box k hk).1 (fun e => hk1 ((hBL k hk).2 e.symm))
+          exact hpair i k hi hk hui hkL
+      linarith
+    · intro j hj hlj
+      have hbj := h.box j hj
+      have hdj : s.boxMin j ≠ s.boxMax j := fun e => by have := (hDeg j hj).1 e; linarith
+      have hjL : s.alpha j ≠ s.boxMin j := fun e => by have := (hBL j hj).1 e; linarith
+      have hjU : s.alpha j = s.boxMax j := by
+        rcases hall j hj with e | e | e
+        · exact absurd e hdj
+        · exact absurd e hjL
+        · exact e
+      have hub := h4 j hj hdj hjL hjU
+      have hlb : acc.1 - s.g j ≤ ε := by
+        rcases h5 with e | ⟨k, hk, hkd, hk1, hk2⟩
+        · rw [e]; have := (hrange j hj).1; linarith
+        · rw [← hk2]
+          have hkU : s.alpha k < s.U k := by
+            rw [(hBL k hk).1 hk1]
+            exact lt_of_le_of_ne (le_trans (h.box k hk).1 (h.box k hk).2) (fun e => hkd ((hDeg k hk).2 e))
+          exact hpair k j hk hj hkU hlj
+      linarith
+
+example : ∃ (s : RS) (ε : Rat), Smo.Inv s ∧ 0 ≤ ε ∧ 0 < s.n ∧
+    (∀ i j, i < s.n → j < s.n → s.alpha i < s.U i → s.L j < s.alpha j → s.g i - s.g j ≤ ε) ∧
+    (∀ k, k < s.n → -(10 : Rat) ^ 100 ≤ s.g k ∧ s.g k ≤ 10 ^ 100) := by
+  refine ⟨State.init 1 (fun _ _ => 1) true false (fun _ => 1) (fun _ => 0) (fun _ => 1), 0, ?_, le_refl _, by decide,
+    ?_, ?_⟩
+  · refine ⟨fun _ _ => rfl, Nat.le_refl _, fun _ => rfl, fun _ hk => hk, fun _ _ _ _ e => e, fun _ _ => rfl, ?_, ?_, ?_,
+      ?_, ?_, fun _ h1 h2 => absurd h2 (Nat.not_lt.mpr h1)⟩
+    · intro k _; simp [State.init, lit0]
+    · intro k _; simp [State.init, lit0]
+    · intro k _; simp [State.init, lit0]
+    · intro a _; simp [State.init, Kalpha, rsum, State.sumTo, lit0]
+    · intro hs; simp [State.init] at hs
+  · intro i j hi hj _ hl; simp [State.init, lit0] at hl
+  · intro k _; simp only [State.init]; constructor <;> norm_num
+
+/-- the former defect F-C07-5 (degenerate box): variable 0 has `L = U = 0` and gradient 10, variable 1 sits at its upper
+bound of `[0,1]` with gradient 0.  The unrepaired `computeBias` returned `½(10 + 0) = 5`, so `b − g_1 = 5 > 1`; the
+current one skips variable 0 and satisfies the bound. -/
+def biasWitnessDegenerate : RS where
+  n := 2
+  K := fun _ _ => 0
+  eqc := true
+  shrinkOn := false
+  unshrinked := false
+  active := 2
+  perm := fun k => k
+  lin := fun k => if k = 0 then 10 else 0
+  alpha := fun k => if k = 0 then 0 else 1
+  diag := fun _ => 0
+  L := fun _ => 0
+  U := fun k => if k = 0 then 0 else 1
+  g := fun k => if k = 0 then 10 else 0
+  gEdge := fun k => if k = 0 then 10 else 0
+  lo := fun k => k == 0
+  up := fun _ => true
+
+theorem bias_degenerate_box_instance_repaired :
+    let s : RS := biasWitnessDegenerate
+    (∀ i j, i < s.n → j < s.n → s.alpha i < s.U i → s.L j < s.alpha j → s.g i - s.g j ≤ 1) ∧
+    s.L 1 < s.alpha 1 ∧ computeBias s (fun k => (k : Rat)) - s.g 1 ≤ 1 := by
+  intro s
+  refine ⟨?_, by norm_num [s, biasWitnessDegenerate], ?_⟩
+  · intro i j hi hj hui _
+    have : i = 0 ∨ i = 1 := by have : i < 2 := hi; omega
+    rcases this with e | e <;> subst e <;> norm_num [s, biasWitnessDegenerate] at hui
+  · have hb : computeBias s (fun k => (k : Rat)) = -(10 ^ 100) / 2 := by
+      rw [computeBias_eq]
+      simp only [biasAcc, biasStep, s, biasWitnessDegenerate, State.boxMin, State.boxMax, List.range_succ, List.range_zero,
+        List.nil_append, List.foldl_cons, List.foldl_nil, List.cons_append, lit0, lit05, lit1e100]
+      norm_num
+    rw [hb]; norm_num [s, biasWitnessDegenerate]
+
+/-- witness outside the hypothesis (sentinel range): one variable at its upper bound of `[0,1]` with gradient
+`−3e100`: `computeBias` returns `½(−1e100 − 3e100) = −2e100`, and `b − g_0 = 1e100 > 1`. -/
+def biasWitnessSentinel : RS where
+  n := 1
+  K := fun _ _ => 0
+  eqc := true
+  shrinkOn := false
+  unshrinked := false
+  active := 1
+  perm := fun k => k
+  lin := fun _ => -(3 * 10 ^ 100)
+  alpha := fun _ => 1
+  diag := fun _ => 0
+  L := fun _ => 0
+  U := fun _ => 1
+  g := fun _ => -(3 * 10 ^ 100)
+  gEdge := fun _ => -(3 * 10 ^ 100)
+  lo := fun _ => false
+  up := fun _ => true
+
+theorem bias_sentinel_witness :
+    let s : RS := biasWitnessSentinel
+    (∀ i j, i < s.n → j < s.n → s.alpha i < s.U i → s.L j < s.alpha j → s.g i - s.g j ≤ 1) ∧
+    s.L 0 < s.alpha 0 ∧ ¬ (computeBias s (fun k => (k : Rat)) - s.g 0 ≤ 1) := by
+  intro s
+  refine ⟨?_, by norm_num [s, biasWitnessSentinel], ?_⟩
+  · intro i j _ _ hui _; norm_num [s, biasWitnessSentinel] at hui
+  · have hb : computeBias s (fun k => (k : Rat)) = -(2 * 10 ^ 100) := by
+      rw [computeBias_eq]
+      simp only [biasAcc, biasStep, s, biasWitnessSentinel, State.boxMin, State.boxMax, List.range_succ, List.range_zero, List.nil_append,
+        List.foldl_cons, List.foldl_nil, lit0, lit05, lit1e100]
+      norm_num
+    rw [hb]; norm_num [s, biasWitnessSentinel]
+
+
+/-! ## The widened trainers: their problems start inside the invariant, and the ε-regression block matrix is PSD
+
+With these, everything proved about reachable states (C08 `reachable_inv`, `sum_inv`, `objective_monotone_svm`) and
+about reported states (`stopped_near_optimal_svm`, …) applies to `CSvmTrainer` with class-specific `C` / example
+weights, to `EpsilonSvmTrainer` and to `OneClassSvmTrainer`. -/
+
+theorem lit1 : (1.0 : Rat) = 1 := by norm_num
+
+/-- gradient accumulated by the `SvmProblem` constructor for a non-zero start vector -/
+theorem initWith_grad (K : Nat → Nat → Rat) (lin a0 : Nat → Rat) : ∀ m (a : Nat),
+    (List.range m).foldl (fun (gr : Nat → Rat) i =>
+      if a0 i == (0.0 : Rat) then gr else fun k => gr k - K i k * a0 i) lin a
+      = lin a - rsum (fun i => K i a * a0 i) m := by
+  intro m
+  induction m with
+  | zero => intro a; simp
+  | succ m ih =>
+    intro a
+    rw [List.range_succ, List.foldl_append, rsum_succ]
+    simp only [List.foldl_cons, List.foldl_nil]
+    split
+    · rename_i h0
+      rw [beq_iff_eq, lit0] at h0
+      rw [ih a, h0]; ring
+    · show (List.range m).foldl _ lin a - K m a * a0 m = _
+      rw [ih a]; ring
+
+/-- **the problem constructed with a non-zero start vector satisfies the invariant** provided the start vector lies in
+the box and every coefficient that sits at a bound is zero (`m_gradientEdge` is initialised with `linear`); this is the
+situation of `BoxedSVMProblem` in the one-class trainer (`alpha = 1/n` strictly inside `[0, 1/(nu n)]`, `nu < 1`). -/
+theorem initWith_inv (n : Nat) (K : Nat → Nat → Rat) (eqc sh : Bool) (lin L U a0 : Nat → Rat)
+    (hsym : ∀ x y, K x y = K y x) (hbox : ∀ k, k < n → L k ≤ a0 k ∧ a0 k ≤ U k)
+    (hedge : ∀ k, k < n → (a0 k = L k ∨ a0 k = U k) → a0 k = 0) :
+    Inv (State.initWith n K eqc sh lin L U a0) := by
+  refine { sym := hsym, act_le := Nat.le_refl _, noshrink := fun _ => rfl, perm_lt := fun k hk => hk,
+           perm_inj := fun a b _ _ e => e, diag := fun k _ => rfl, box := hbox, flo := ?_, fup := ?_,
+           grad := ?_, edge := ?_, shrunk := ?_ }
+  · intro k _; simp only [State.initWith, beq_iff_eq]
+  · intro k _; simp only [State.initWith, beq_iff_eq]
+  · intro a _
+    show (List.range n).foldl _ lin a = lin a - Kalpha (State.initWith n K eqc sh lin L U a0) a
+    rw [initWith_grad]
+    simp only [Kalpha, State.initWith]
+    congr 1; apply rsum_congr; intro i _; rw [hsym]
+  · intro _ a _
+    show lin a = lin a - KalphaEdge (State.initWith n K eqc sh lin L U a0) a
+    have : KalphaEdge (State.initWith n K eqc sh lin L U a0) a = 0 := by
+      have e : KalphaEdge (State.initWith n K eqc sh lin L U a0) a = rsum (fun _ => 0) n := by
+        unfold KalphaEdge
+        apply rsum_congr; intro b hb
+        split
+        · rename_i hbd
+          have hz : a0 b = 0 := hedge b hb hbd
+          show K a b * a0 b = 0
+          rw [hz, mul_zero]
+        · rfl
+      rw [e, rsum_const_zero]
+    rw [this, sub_zero]
+  · intro k hk1 hk2; exact absurd hk2 (Nat.not_lt.mpr hk1)
+
+/-- the C-SVM problem with class-specific `C` and per-example weights starts in a state satisfying the invariant -/
+theorem csvmInit2_inv (n : Nat) (K : Nat → Nat → Rat) (y : Nat → Bool) (Cn Cp : Rat) (w : Nat → Rat) (bias sh : Bool)
+    (hsym : ∀ x y, K x y = K y x) (hCn : 0 ≤ Cn) (hCp : 0 ≤ Cp) (hw : ∀ k, k < n → 0 ≤ w k) :
+    Inv (csvmInit2 n K y Cn Cp w bias sh) := by
+  apply C08.init_inv _ _ _ _ _ _ _ hsym
+  intro k hk
+  have h1 := mul_nonneg hCn (hw k hk)
+  have h2 := mul_nonneg hCp (hw k hk)
+  cases y k <;> simp only [lit0, Bool.false_eq_true, if_false, if_true] <;> constructor <;> linarith
+
+/-- the ε-regression problem (2n variables over the block matrix) starts in a state satisfying the invariant -/
+theorem epsInit_inv (n : Nat) (K : Nat → Nat → Rat) (y : Nat → Rat) (C tube : Rat) (sh : Bool)
+    (hsym : ∀ x y, K x y = K y x) (hC : 0 ≤ C) : Inv (epsInit n K y C tube sh) := by
+  apply C08.init_inv _ _ _ _ _ _ _ (fun a b => hsym _ _)
+  intro k _
+  split <;> simp only [lit0] <;> constructor <;> linarith
+
+/-- the one-class problem (`alpha = 1/n`, box `[0, 1/(nu n)]`, `0 < nu < 1`) starts in a state satisfying the invariant
+with coefficient sum 1 -/
+theorem oneClassInit_inv (n : Nat) (K : Nat → Nat → Rat) (nu : Rat) (sh : Bool)
+    (hsym : ∀ x y, K x y = K y x) (hn : 0 < n) (hnu0 : 0 < nu) (hnu1 : nu < 1) :
+    Inv (oneClassInit n K nu (n : Rat) sh) ∧ alphaSum (oneClassInit n K nu (n : Rat) sh) = 1 := by
+  have hnq : (0 : Rat) < (n : Rat) := by exact_mod_cast hn
+  have hlt : (1 : Rat) / (n : Rat) < 1 / (nu * (n : Rat)) := by
+    rw [div_lt_div_iff₀ hnq (mul_pos hnu0 hnq)]
+    nlinarith
+  have hpos : (0 : Rat) < 1 / (n : Rat) := div_pos one_pos hnq
+  constructor
+  · unfold oneClassInit
+    apply initWith_inv _ _ _ _ _ _ _ _ hsym
+    · intro k _; simp only [lit0, lit1]; constructor <;> linarith
+    · intro k _ hb; simp only [lit0, lit1] at hb ⊢
+      rcases hb with hb | hb <;> linarith
+  · simp only [alphaSum, oneClassInit, State.initWith, lit1]
+    have : ∀ m : Nat, rsum (fun _ => (1 : Rat) / (n : Rat)) m = (m : Rat) / (n : Rat) := by
+      intro m
+      induction m with
+      | zero => simp
+      | succ m ih => rw [rsum_succ, ih]; push_cast; ring
+    rw [this n]; exact div_self (ne_of_gt hnq)
+
+/-- `Σ_{a<2n} f a` splits into the two halves -/
+theorem rsum_two_mul (f : Nat → Rat) (n : Nat) : rsum f (2 * n) = rsum f n + rsum (fun k => f (n + k)) n := by
+  have h : ∀ m, rsum f (n + m) = rsum f n + rsum (fun k => f (n + k)) m := by
+    intro m
+    induction m with
+    | zero => simp
+    | succ m ih => rw [← Nat.add_assoc, rsum_succ, ih, rsum_succ]; ring
+  rw [two_mul]; exact h n
+
+/-- the 2×2 block matrix `[[Q,Q],[Q,Q]]` of the ε-regression dual is PSD when `Q` is -/
+theorem psd_block {n : Nat} {Q : Nat → Nat → Rat} (h : PSD n Q) : PSD (2 * n) (fun a b => Q (a % n) (b % n)) := by
+  intro v
+  have key : bil (2 * n) (fun a b => Q (a % n) (b % n)) v v
+      = bil n Q (fun k => v k + v (n + k)) (fun k => v k + v (n + k)) := by
+    unfold bil
+    have inner : ∀ a, rsum (fun b => Q (a % n) (b % n) * v b) (2 * n)
+        = rsum (fun l => Q (a % n) l * (v l + v (n + l))) n := by
+      intro a
+      rw [rsum_two_mul, ← rsum_add]
+      apply rsum_congr; intro l hl
+      rw [Nat.add_mod_left, Nat.mod_eq_of_lt hl]; ring
+    rw [rsum_two_mul, ← rsum_add]
+    apply rsum_congr; intro k hk
+    rw [inner k, inner (n + k), Nat.add_mod_left, Nat.mod_eq_of_lt hk]; ring
+  rw [key]; exact h _
+
+
+example : ∃ (n : Nat) (K : Nat → Nat → Rat) (nu : Rat), (∀ x y, K x y = K y x) ∧ 0 < n ∧ 0 < nu ∧ nu < 1 :=
+  ⟨2, fun _ _ => 1, 1 / 2, fun _ _ => rfl, by decide, by norm_num, by norm_num⟩
+
+
+/-! ## Warm starts -/
+
+/-- **warm start**: `setInitialSolution(a0)` on a state with all variables active yields a state satisfying the
+invariant whenever `a0` lies in the box (gradient and edge gradient are rebuilt from scratch) -/
+theorem setInitialSolution_inv {s : RS} (h : Inv s) (hact : s.active = s.n) (a0 : Nat → Rat)
+    (hbox : ∀ k, k < s.n → s.L k ≤ a0 k ∧ a0 k ≤ s.U k) : Inv (s.setInitialSolution a0) := by
+  unfold State.setInitialSolution
+  refine { sym := h.sym, act_le := h.act_le, noshrink := h.noshrink, perm_lt := h.perm_lt, perm_inj := h.perm_inj,
+           diag := h.diag, box := hbox, flo := ?_, fup := ?_, grad := ?_, edge := ?_, shrunk := ?_ }
+  · intro k _; simp only [beq_iff_eq]
+  · intro k _; simp only [beq_iff_eq]
+  · intro a _
+    dsimp only
+    rw [foldl_filter_sub (fun i => !(a0 i == (0.0 : Rat))) (fun i k => a0 i * s.q i k) s.lin s.n a]
+    show _ = s.lin a - rsum (fun b => s.K (s.perm a) (s.perm b) * a0 b) s.n
+    congr 1; apply rsum_congr; intro i _
+    by_cases h0 : a0 i = 0
+    · simp [h0, lit0]
+    · have : (!(a0 i == (0.0 : Rat))) = true := by rw [lit0]; simp [h0]
+      rw [this, if_pos rfl]; simp only [State.q]; rw [h.sym]; ring
+  · intro _ a _
+    dsimp only
+    rw [List.filter_filter,
+      foldl_filter_sub _ (fun i k => a0 i * s.q i k) s.lin s.n a]
+    show _ = s.lin a - rsum (fun b => if a0 b = s.L b ∨ a0 b = s.U b then s.K (s.perm a) (s.perm b) * a0 b else 0) s.n
+    congr 1; apply rsum_congr; intro i hi
+    rw [boxMin_eq h hi, boxMax_eq h hi]
+    by_cases h0 : a0 i = 0
+    · simp [h0, lit0]
+    · by_cases hb : a0 i = s.L i ∨ a0 i = s.U i
+      · have : (((a0 i == s.L i) || (a0 i == s.U i)) && !(a0 i == (0.0 : Rat))) = true := by
+          rw [lit0]; rcases hb with e | e <;> simp [e, h0] <;> (rw [← e]; exact h0)
+        rw [this, if_pos rfl, if_pos hb]; simp only [State.q]; rw [h.sym]; ring
+      · have : (((a0 i == s.L i) || (a0 i == s.U i)) && !(a0 i == (0.0 : Rat))) = false := by
+          push_neg at hb; simp [hb.1, hb.2]
+        rw [this, if_neg hb]; simp
+  · intro k hk1 hk2
+    have : s.n ≤ k := by rw [← hact]; exact hk1
+    exact absurd hk2 (Nat.not_lt.mpr this)
+
+open Classical in
+/-- **the warm-start vector lies in the box** (boxes contain 0, as for every C-SVM problem) -/
+theorem warmStart_in_box (s : RS) (a1 : Nat → Rat) (bias : Bool)
+    (hbox : ∀ k, k < s.n → s.L k ≤ 0 ∧ 0 ≤ s.U k) :
+    ∀ k, k < s.n → s.L k ≤ warmStartVector s a1 bias k ∧ warmStartVector s a1 bias k ≤ s.U k := by
+  intro k hk
+  have hc := clipv_box s a1 k (le_trans (hbox k hk).1 (hbox k hk).2)
+  obtain ⟨hL0, hU0⟩ := hbox k hk
+  rw [warmStartVector_apply]
+  split
+  · exact hc
+  split
+  · exact hc
+  rename_i _ hG
+  have hne : warmP s a1 ≠ warmN s a1 := fun e => hG (Or.inr e)
+  split
+  · obtain ⟨hf0, hf1⟩ := warmF_bounds (warmP_nonneg s a1) (warmN_nonneg s a1) hne
+    generalize warmF (warmP s a1) (warmN s a1) = f at hf0 hf1 ⊢
+    by_cases hpos : 0 < clipv s a1 k
+    · constructor
+      · have := mul_nonneg (le_of_lt hpos) hf0; linarith
+      · have := mul_le_mul_of_nonneg_left hf1 (le_of_lt hpos); linarith [hc.2]
+    · have hle : clipv s a1 k ≤ 0 := not_lt.mp hpos
+      constructor
+      · have := mul_le_mul_of_nonneg_left hf1 (neg_nonneg.mpr hle)
+        nlinarith [hc.1]
+      · have := mul_nonneg (neg_nonneg.mpr hle) hf0
+        nlinarith
+  · exact hc
+
+open Classical in
+/-- **with bias the warm-start vector sums to zero whenever clipping changed a coefficient** (exactly, in exact
+arithmetic): this is what the repair of F-C07-2 establishes, and `sum_inv` (C08) keeps it for the whole run -/
+theorem warmStart_sum_zero (s : RS) (a1 : Nat → Rat) (hclip : anyClip s a1) :
+    rsum (warmStartVector s a1 true) s.n = 0 := by
+  have hsplit : rsum (clipv s a1) s.n = warmP s a1 - warmN s a1 := by
+    unfold warmP warmN; rw [← rsum_sub]; apply rsum_congr; intro i _; split <;> ring
+  by_cases hPN : warmP s a1 = warmN s a1
+  · have : rsum (warmStartVector s a1 true) s.n = rsum (clipv s a1) s.n := by
+      apply rsum_congr; intro k _; rw [warmStartVector_apply]; simp [hPN]
+    rw [this, hsplit, hPN, sub_self]
+  · have hG : ¬ (¬ anyClip s a1 ∨ warmP s a1 = warmN s a1) := fun h => h.elim (fun h' => h' hclip) hPN
+    have hP := warmP_nonneg s a1
+    have hN := warmN_nonneg s a1
+    by_cases hgt : warmN s a1 < warmP s a1
+    · have hPpos : 0 < warmP s a1 := lt_of_le_of_lt hN hgt
+      have hF : warmF (warmP s a1) (warmN s a1) = warmN s a1 / warmP s a1 := by unfold warmF; rw [if_pos hgt]
+      have : rsum (warmStartVector s a1 true) s.n
+          = rsum (fun i => (warmN s a1 / warmP s a1) * (if 0 < clipv s a1 i then clipv s a1 i else 0)
+              - (if 0 < clipv s a1 i then 0 else - clipv s a1 i)) s.n := by
+        apply rsum_congr; intro k _
+        rw [warmStartVector_apply, if_neg (by simp), if_neg hG, hF]
+        by_cases hpos : 0 < clipv s a1 k
+        · have hne : clipv s a1 k ≠ 0 := ne_of_gt hpos
+          rw [if_pos ⟨⟨fun _ => hgt, fun _ => hpos⟩, hne⟩]; simp only [hpos, if_true]; ring
+        · rw [if_neg (fun h => hpos (h.1.2 hgt))]; simp only [hpos, if_false]; ring
+      rw [this, rsum_sub, rsum_mul_left]
+      show warmN s a1 / warmP s a1 * warmP s a1 - warmN s a1 = 0
+      rw [div_mul_cancel₀ _ (ne_of_gt hPpos), sub_self]
+    · have hlt : warmP s a1 < warmN s a1 := lt_of_le_of_ne (not_lt.mp hgt) hPN
+      have hNpos : 0 < warmN s a1 := lt_of_le_of_lt hP hlt
+      have hF : warmF (warmP s a1) (warmN s a1) = warmP s a1 / warmN s a1 := by
+        unfold warmF; rw [if_neg (not_lt.mpr (le_of_lt hlt))]
+      have : rsum (warmStartVector s a1 true) s.n
+          = rsum (fun i => (if 0 < clipv s a1 i then clipv s a1 i else 0)
+              - (warmP s a1 / warmN s a1) * (if 0 < clipv s a1 i then 0 else - clipv s a1 i)) s.n := by
+        apply rsum_congr; intro k _
+        rw [warmStartVector_apply, if_neg (by simp), if_neg hG, hF]
+        by_cases hpos : 0 < clipv s a1 k
+        · rw [if_neg (fun h => hgt (h.1.1 hpos))]; simp only [hpos, if_true]; ring
+        · by_cases hz : clipv s a1 k = 0
+          · rw [if_neg (fun h => h.2 hz)]; simp [hz]
+          · rw [if_pos ⟨⟨fun h => absurd h hpos, fun h => absurd h hgt⟩, hz⟩]; simp only [hpos, if_false]; ring
+      rw [this, rsum_sub, rsum_mul_left]
+      show warmP s a1 - warmP s a1 / warmN s a1 * warmN s a1 = 0
+      rw [div_mul_cancel₀ _ (ne_of_gt hNpos), sub_self]
+
+open Classical in
+/-- a start vector that already fits the box is passed through unchanged (refined repair b8cdd69a: a feasible solution
+is not rescaled) -- in particular its coefficient sum is whatever it was -/
+theorem warmStart_untouched (s : RS) (a1 : Nat → Rat) (bias : Bool) (h : ¬ anyClip s a1) :
+    ∀ k, k < s.n → warmStartVector s a1 bias k = a1 k := by
+  intro k hk
+  have hc : clipv s a1 k = a1 k := by
+    by_contra hne; exact h ⟨k, hk, hne⟩
+  rw [warmStartVector_apply]
+  split
+  · exact hc
+  · rw [if_pos (Or.inl h)]; exact hc
+
+/-- **a warm-started C-SVM run starts inside the invariant**, whatever coefficients the previous model carries, and
+with bias its coefficient sum is exactly 0 as soon as clipping changed a coefficient or the previous coefficients summed
+to 0 (a previous vector that fits the box is passed through as it is) -- so `reachable_inv`, `sum_inv` and `stopped_near_optimal_*` apply to warm
+starts as to cold ones (this is the configuration-independence clause for warm starts, given termination). -/
+theorem warm_start_inv (n : Nat) (K : Nat → Nat → Rat) (y : Nat → Bool) (Cn Cp : Rat) (w : Nat → Rat) (bias sh : Bool)
+    (a1 : Nat → Rat) (hsym : ∀ x y, K x y = K y x) (hCn : 0 ≤ Cn) (hCp : 0 ≤ Cp) (hw : ∀ k, k < n → 0 ≤ w k) :
+    let s0 := csvmInit2 n K y Cn Cp w bias sh
+    Inv (s0.setInitialSolution (warmStartVector s0 a1 bias)) ∧
+    (bias = true → (anyClip s0 a1 ∨ rsum a1 n = 0) →
+      alphaSum (s0.setInitialSolution (warmStartVector s0 a1 bias)) = 0) := by
+  intro s0
+  have h0 : Inv s0 := csvmInit2_inv n K y Cn Cp w bias sh hsym hCn hCp hw
+  have hbox0 : ∀ k, k < s0.n → s0.L k ≤ 0 ∧ 0 ≤ s0.U k := by
+    intro k hk
+    have := h0.box k hk
+    have ha : s0.alpha k = 0 := lit0
+    rw [ha] at this; exact this
+  refine ⟨setInitialSolution_inv h0 rfl _ (warmStart_in_box s0 a1 bias hbox0), ?_⟩
+  intro hb hc
+  subst hb
+  by_cases hclip : anyClip s0 a1
+  · exact warmStart_sum_zero s0 a1 hclip
+  · have hz : rsum a1 n = 0 := hc.resolve_left hclip
+    show rsum (warmStartVector s0 a1 true) s0.n = 0
+    rw [rsum_congr (warmStart_untouched s0 a1 true hclip)]
+    exact hz
+
+example : ∃ (n : Nat) (K : Nat → Nat → Rat) (Cn Cp : Rat) (w : Nat → Rat),
+    (∀ x y, K x y = K y x) ∧ 0 ≤ Cn ∧ 0 ≤ Cp ∧ ∀ k, k < n → 0 ≤ w k :=
+  ⟨2, fun _ _ => 1, 1, 2, fun _ => 1, fun _ _ => rfl, by norm_num, by norm_num, fun _ _ => by norm_num⟩
+
+
+/-! ## The offsets of the ε-regression and one-class machines -/
+
+theorem foldl_range_congr {β : Type} (f g : β → Nat → β) (init : β) : ∀ n, (∀ acc k, k < n → f acc k = g acc k) →
+    (List.range n).foldl f init = (List.range n).foldl g init := by
+  intro n
+  induction n with
+  | zero => intro _; rfl
+  | succ n ih =>
+    intro h
+    rw [List.range_succ, List.foldl_append, List.foldl_append, ih (fun acc k hk => h acc k (by omega))]
+    simp only [List.foldl_cons, List.foldl_nil]
+    exact h _ n (Nat.lt_succ_self n)
+
+/-- for boxes with non-empty interior the offset loop of `EpsilonSvmTrainer` computes what `CSvmTrainer::computeBias`
+computes (`std::max(value, bound)` versus `if (value > bound) bound = value`) -/
+theorem epsOffset_eq_computeBias (s : RS) (cnt : Nat → Rat) (hnd : ∀ k, k < s.n → s.boxMin k ≠ s.boxMax k) (hn : s.n ≠ 0) :
+    epsOffset s cnt = computeBias s cnt := by
+  unfold epsOffset computeBias
+  rw [if_neg hn]
+  dsimp only
+  rw [foldl_range_congr _ (fun (acc : Rat × Rat × Rat × Nat) i =>
+      if s.boxMin i == s.boxMax i then acc
+      else if s.alpha i == s.boxMin i then
+        (if s.g i > acc.1 then (s.g i, acc.2.1, acc.2.2.1, acc.2.2.2) else acc)
+      else if s.alpha i == s.boxMax i then
+        (if s.g i < acc.2.1 then (acc.1, s.g i, acc.2.2.1, acc.2.2.2) else acc)
+      else (acc.1, acc.2.1, acc.2.2.1 + s.g i, acc.2.2.2 + 1)) _ s.n]
+  intro acc k hk
+  have hd : ¬ ((s.boxMin k == s.boxMax k) = true) := by rw [beq_iff_eq]; exact hnd k hk
+  rw [if_neg hd]
+  split
+  · unfold smax; split
+    · rename_i h; rw [if_neg (not_lt.mpr (le_of_lt h))]
+    · rename_i h
+      by_cases hgt : s.g k > acc.1
+      · rw [if_pos hgt]
+      · rw [if_neg hgt]
+        have : s.g k = acc.1 := le_antisymm (not_lt.mp hgt) (not_lt.mp h)
+        rw [this]
+  · split
+    · unfold smin; split
+      · rename_i h; rw [if_neg (not_lt.mpr (le_of_lt h))]
+      · rename_i h
+        by_cases hlt : s.g k < acc.2.1
+        · rw [if_pos hlt]
+        · rw [if_neg hlt]
+          have : s.g k = acc.2.1 := le_antisymm (not_lt.mp h) (not_lt.mp hlt)
+          rw [this]
+    · rfl
+
+/-- **the offset of the ε-regression machine lies in the KKT interval** (same statement and hypotheses as
+`bias_in_kkt_interval_partial`; the boxes `[0,C]`, `[−C,0]` of ε-regression have non-empty interior for `C > 0`) -/
+theorem eps_offset_in_kkt_interval_partial {s : RS} (h : Smo.Inv s) {ε : Rat} (hε : 0 ≤ ε)
+    (hpair : ∀ i j, i < s.n → j < s.n → s.alpha i < s.U i → s.L j < s.alpha j → s.g i - s.g j ≤ ε)
+    (hnd : ∀ k, k < s.n → s.L k < s.U k)
+    (hrange : ∀ k, k < s.n → -(10 : Rat) ^ 100 ≤ s.g k ∧ s.g k ≤ 10 ^ 100) :
+    (∀ i, i < s.n → s.alpha i < s.U i → s.g i - epsOffset s (fun k => (k : Rat)) ≤ ε) ∧
+    (∀ j, j < s.n → s.L j < s.alpha j → epsOffset s (fun k => (k : Rat)) - s.g j ≤ ε) := by
+  by_cases hn : s.n = 0
+  · exact ⟨fun i hi => by omega, fun j hj => by omega⟩
+  rw [epsOffset_eq_computeBias s _ (fun k hk => by
+    rw [boxMin_eq h hk, boxMax_eq h hk]; exact ne_of_lt (hnd k hk)) hn]
+  exact bias_in_kkt_interval_partial h hε hpair hrange
+
+
+/-- the offset loop of `OneClassSvmTrainer` (literal tests `alpha == 0`, `alpha == upper`) is the box-based loop when the
+box is `[0, upper]` -/
+theorem oneClassOffset_eq_epsOffset (s : RS) (upper : Rat) (cnt : Nat → Rat)
+    (hb : ∀ k, k < s.n → s.boxMin k = 0 ∧ s.boxMax k = upper) :
+    oneClassOffset s upper cnt = epsOffset s cnt := by
+  unfold oneClassOffset epsOffset
+  dsimp only
+  rw [foldl_range_congr _ (fun (acc : Rat × Rat × Rat × Nat) i =>
+      if s.alpha i == s.boxMin i then (smax (s.g i) acc.1, acc.2.1, acc.2.2.1, acc.2.2.2)
+      else if s.alpha i == s.boxMax i then (acc.1, smin (s.g i) acc.2.1, acc.2.2.1, acc.2.2.2)
+      else (acc.1, acc.2.1, acc.2.2.1 + s.g i, acc.2.2.2 + 1)) _ s.n]
+  intro acc k hk
+  rw [(hb k hk).1, (hb k hk).2, lit0]
+
+/-- **the offset of the one-class machine lies in the KKT interval** -/
+theorem oneclass_offset_in_kkt_interval_partial {s : RS} (h : Smo.Inv s) {ε upper : Rat} (hε : 0 ≤ ε) (hup : 0 < upper)
+    (hbox : ∀ k, k < s.n → s.L k = 0 ∧ s.U k = upper)
+    (hpair : ∀ i j, i < s.n → j < s.n → s.alpha i < s.U i → s.L j < s.alpha j → s.g i - s.g j ≤ ε)
+    (hrange : ∀ k, k < s.n → -(10 : Rat) ^ 100 ≤ s.g k ∧ s.g k ≤ 10 ^ 100) :
+    (∀ i, i < s.n → s.alpha i < s.U i → s.g i - oneClassOffset s upper (fun k => (k : Rat)) ≤ ε) ∧
+    (∀ j, j < s.n → s.L j < s.alpha j → oneClassOffset s upper (fun k => (k : Rat)) - s.g j ≤ ε) := by
+  rw [oneClassOffset_eq_epsOffset s upper _ (fun k hk => by
+    rw [boxMin_eq h hk, boxMax_eq h hk]; exact hbox k hk)]
+  exact eps_offset_in_kkt_interval_partial h hε hpair
+    (fun k hk => by rw [(hbox k hk).1, (hbox k hk).2]; exact hup) hrange
+
+
+/-! ## End to end: what `AccuracyReached` means for the trained machine -/
+
+/-- positive semi-definiteness of a kernel in the usual sense: every finite Gram matrix `K(f a, f b)` is PSD -/
+def KernelPSD (K : Nat → Nat → Rat) : Prop :=
+  ∀ (m : Nat) (f : Nat → Nat) (v : Nat → Rat), 0 ≤ bil m (fun a b => K (f a) (f b)) v v
+
+theorem KernelPSD.qmat {K : Nat → Nat → Rat} (h : KernelPSD K) (s : RS) (hK : s.K = K) : PSD s.n (Qmat s) := by
+  intro v; unfold Qmat; rw [hK]; exact h s.n s.perm v
+
+/-- if the model of `QpSolver::solve` reports `AccuracyReached`, the state it returns has all variables active and a
+KKT violation below `eps` -/
+theorem solve_acc (strategy : Nat) (eps : Rat) : ∀ (fuel : Nat) (s : RS) (counter it : Nat),
+    (solve strategy eps fuel s counter it).2.1 = true →
+    (solve strategy eps fuel s counter it).1.checkKKT < eps ∧
+    (solve strategy eps fuel s counter it).1.active = (solve strategy eps fuel s counter it).1.n := by
+  intro fuel
+  induction fuel with
+  | zero => intro s _ _ h; simp [solve] at h
+  | succ fuel ih =>
+    intro s counter it h
+    unfold solve at h ⊢
+    cases hn : (solveIter strategy eps s counter).2 with
+    | none =>
+      obtain ⟨hk, hev⟩ := stop_implies_kkt strategy eps s counter hn
+      simp only [hev, List.getLast?_singleton, Option.map_some, Option.getD_some]
+      exact ⟨hk, unshrink_active s⟩
+    | some p =>
+      obtain ⟨s', c'⟩ := p
+      simp only [hn] at h ⊢
+      exact ih s' c' (it + 1) h
+
+/-- the data of the problem never changes during a solver run -/
+theorem solveIter_K (strategy : Nat) (eps : Rat) (s : RS) (counter : Nat) :
+    (∀ e, e ∈ (solveIter strategy eps s counter).1 → e.2.K = s.K) ∧
+    (∀ s' c', (solveIter strategy eps s counter).2 = some (s', c') → s'.K = s.K) := by
+  have hun : s.unshrink.K = s.K := by unfold State.unshrink; split <;> rfl
+  have hsh : ∀ t : RS, (t.shrink eps).1.K = t.K := by
+    intro t
+    unfold State.shrink
+    split
+    · rfl
+    · dsimp only
+      have hgo : ∀ (lu sd : Rat) (a : Nat) (u : RS), (State.shrinkGo lu sd a u).K = u.K := by
+        intro lu sd a
+        induction a with
+        | zero => intro u; rfl
+        | succ a ih => intro u; rw [shrinkGo_succ]; split
+                       · rw [ih]; rfl
+                       · exact ih u
+      split
+      · rw [hgo]; unfold State.unshrink; split <;> rfl
+      · rw [hgo]
+  have hsmo : ∀ (t : RS) (i j : Nat), (t.updateSMO i j).K = t.K := fun t i j => (updateSMO_frame t i j).2.2.1
+  unfold solveIter
+  by_cases hacc : (s.select strategy 0 0).2.2 < eps
+  · simp only [hacc, if_true]
+    by_cases hkkt : s.unshrink.checkKKT < eps
+    · simp only [hkkt, if_true]
+      refine ⟨?_, fun s' c' hn => by simp at hn⟩
+      intro e he
+      simp only [List.mem_cons, List.not_mem_nil, or_false] at he; rw [he]; exact hun
+    · simp only [hkkt, if_false]
+      split
+      · refine ⟨?_, fun s' c' hn => by
+          simp only [Option.some.injEq, Prod.mk.injEq] at hn; rw [← hn.1, hsh, hsmo, hsh, hun]⟩
+        intro e he
+        simp only [List.cons_append, List.nil_append, List.mem_cons, List.not_mem_nil, or_false] at he
+        rcases he with he | he | he | he <;> rw [he]
+        · exact hun
+        · rw [hsh, hun]
+        · rw [hsmo, hsh, hun]
+        · rw [hsh, hsmo, hsh, hun]
+      · refine ⟨?_, fun s' c' hn => by
+          simp only [Option.some.injEq, Prod.mk.injEq] at hn; rw [← hn.1, hsmo, hsh, hun]⟩
+        intro e he
+        simp only [List.cons_append, List.nil_append, List.mem_cons, List.not_mem_nil, or_false] at he
+        rcases he with he | he | he <;> rw [he]
+        · exact hun
+        · rw [hsh, hun]
+        · rw [hsmo, hsh, hun]
+  · simp only [hacc, if_false]
+    split
+    · refine ⟨?_, fun s' c' hn => by
+        simp only [Option.some.injEq, Prod.mk.injEq] at hn; rw [← hn.1, hsh, hsmo]⟩
+      intro e he
+      simp only [List.nil_append, List.cons_append, List.mem_cons, List.not_mem_nil, or_false] at he
+      rcases he with he | he <;> rw [he]
+      · exact hsmo _ _ _
+      · rw [hsh, hsmo]
+    · refine ⟨?_, fun s' c' hn => by
+        simp only [Option.some.injEq, Prod.mk.injEq] at hn; rw [← hn.1, hsmo]⟩
+      intro e he
+      simp only [List.nil_append, List.mem_cons, List.not_mem_nil, or_false] at he
+      rw [he]; exact hsmo _ _ _
+
+theorem solve_K (strategy : Nat) (eps : Rat) : ∀ (fuel : Nat) (s : RS) (counter it : Nat),
+    (solve strategy eps fuel s counter it).1.K = s.K := by
+  intro fuel
+  induction fuel with
+  | zero => intro s _ _; rfl
+  | succ fuel ih =>
+    intro s counter it
+    obtain ⟨hev, hnext⟩ := solveIter_K strategy eps s counter
+    unfold solve
+    cases hn : (solveIter strategy eps s counter).2 with
+    | none =>
+      simp only []
+      cases hl : (solveIter strategy eps s counter).1.getLast? with
+      | none => simp
+      | some e => simpa using hev e (List.mem_of_getLast? hl)
+    | some p =>
+      obtain ⟨s', c'⟩ := p
+      simp only []
+      rw [ih s' c' (it + 1)]; exact hnext s' c' hn
+
+/-- the block kernel of ε-regression is a PSD kernel when `K` is -/
+theorem KernelPSD.block {K : Nat → Nat → Rat} (h : KernelPSD K) (n : Nat) :
+    KernelPSD (fun a b => K (a % n) (b % n)) := fun m f v => h m (fun a => f a % n) v
+
+/-- **end to end, box-constrained problem** (any start state inside the invariant, maximum-gain selection, any
+iteration limit and start counter): if the model of `QpSolver::solve` reports `AccuracyReached` for a PSD kernel, then
+NO coefficient vector inside the boxes has a dual objective more than `eps·Σ(U−L)` above the returned one.  No
+hypothesis about the run is left: `solve_inv_box` covers every selection the solver makes. -/
+theorem solve_optimal_box (s0 : RS) (h0 : Inv s0) (he : s0.eqc = false) (hpsd : KernelPSD s0.K)
+    (strategy : Nat) (hstr : 2 ≤ strategy) (eps : Rat) (heps : 0 < eps) (fuel counter it : Nat) :
+    let r := solve strategy eps fuel s0 counter it
+    r.2.1 = true → ∀ β : Nat → Rat, (∀ k, k < r.1.n → r.1.L k ≤ β k ∧ β k ≤ r.1.U k) →
+      dual r.1.n (Qmat r.1) r.1.lin β - dualObjective r.1 ≤ eps * rsum (fun k => r.1.U k - r.1.L k) r.1.n := by
+  intro r hacc β hβ
+  obtain ⟨hI, he'⟩ : Inv r.1 ∧ r.1.eqc = false := C08.solve_inv_box strategy hstr eps heps fuel s0 counter it h0 he
+  obtain ⟨hk, hact⟩ := solve_acc strategy eps fuel s0 counter it hacc
+  have hK : r.1.K = s0.K := solve_K strategy eps fuel s0 counter it
+  exact stopped_near_optimal_box hI he' hact (hpsd.qmat r.1 hK) (le_of_lt heps) hk β hβ
+
+/-- FULL STATEMENT: the same for the equality-constrained problem (LibSVM second-order selection) against every
+feasible `β` with the same coefficient sum.  PROVED PART: runs whose gradients stay strictly inside the C++ sentinel
+range `(−1e100, 1e100)` at the start of every pass (`C08.selectLibSVM_sentinel_witness` shows what goes wrong outside). -/
+theorem solve_optimal_svm_partial (s0 : RS) (h0 : Inv s0) (he : s0.eqc = true) (hpsd : KernelPSD s0.K)
+    (eps : Rat) (heps : 0 < eps) (fuel counter it : Nat)
+    (hsent : ∀ t, t ∈ C08.passStates 1 eps fuel s0 counter → SentinelOK t) :
+    let r := solve 1 eps fuel s0 counter it
+    r.2.1 = true → ∀ β : Nat → Rat, (∀ k, k < r.1.n → r.1.L k ≤ β k ∧ β k ≤ r.1.U k) → rsum β r.1.n = alphaSum r.1 →
+      dual r.1.n (Qmat r.1) r.1.lin β - dualObjective r.1 ≤ eps * rsum (fun k => r.1.U k - r.1.L k) r.1.n := by
+  intro r hacc β hβ hsum
+  obtain ⟨hI, he'⟩ : Inv r.1 ∧ r.1.eqc = true := C08.solve_inv_svm_partial eps heps fuel s0 counter it h0 he hsent
+  obtain ⟨hk, hact⟩ := solve_acc 1 eps fuel s0 counter it hacc
+  have hK : r.1.K = s0.K := solve_K 1 eps fuel s0 counter it
+  exact stopped_near_optimal_svm hI he' hact (hpsd.qmat r.1 hK) (le_of_lt heps) hk β hβ hsum
+
+/-- **end to end, C-SVM without bias** (one or class-specific `C`, per-example weights; the model of
+`CSvmTrainer::optimize` with the box-constrained problem, any shrinking flag, any iteration limit): if training reports
+`AccuracyReached` for a PSD kernel, the returned coefficients are `eps·Σ(U−L)`-optimal for the dual. -/
+theorem csvm_nobias_optimal (n : Nat) (K : Nat → Nat → Rat) (y : Nat → Bool) (Cn Cp : Rat) (w : Nat → Rat)
+    (eps : Rat) (shrink : Bool) (maxIter : Nat) (hsym : ∀ x y, K x y = K y x) (hpsd : KernelPSD K)
+    (hCn : 0 ≤ Cn) (hCp : 0 ≤ Cp) (hw : ∀ k, k < n → 0 ≤ w k) (heps : 0 < eps) :
+    let r := train2 n K y Cn Cp w eps false shrink maxIter
+    r.2.1 = true → ∀ β : Nat → Rat, (∀ k, k < r.1.n → r.1.L k ≤ β k ∧ β k ≤ r.1.U k) →
+      dual r.1.n (Qmat r.1) r.1.lin β - dualObjective r.1 ≤ eps * rsum (fun k => r.1.U k - r.1.L k) r.1.n :=
+  solve_optimal_box (csvmInit2 n K y Cn Cp w false shrink)
+    (csvmInit2_inv n K y Cn Cp w false shrink hsym hCn hCp hw) rfl hpsd 2 (Nat.le_refl _) eps heps maxIter 0 0
+
+example : KernelPSD (fun _ _ => (1 : Rat)) := by
+  intro m f v
+  have : bil m (fun _ _ => (1 : Rat)) v v = rsum v m * rsum v m := by
+    unfold bil
+    have e : (fun a => v a * rsum (fun b => (1 : Rat) * v b) m) = fun a => rsum v m * v a := by
+      funext a
+      have : rsum (fun b => (1 : Rat) * v b) m = rsum v m := rsum_congr (fun k _ => one_mul _)
+      rw [this]; ring
+    rw [e, rsum_mul_left]
+  rw [this]; exact mul_self_nonneg _
 
 end SharkVerif.C07
